@@ -21,42 +21,47 @@
 (*   batch       h <  now - W   <=> age >= W + 1                           *)
 (*   bridge call h <= now - W   <=> age >= W      (one block earlier)      *)
 (*   pruning     now - W >  h   <=> age >= W + 1                           *)
+(* Oracle powers are whole power units (DelegateAmount / 10^20); an oracle  *)
+(* set records its members' normalised powers, kept here at 20 bits:       *)
+(*   np[o] = floor(floor(p_o * (2^32-1) / total) / 4096)                    *)
+(*         = (p_o * 2^20 - 1) div total          (TLC integers are 32 bit)  *)
 (* LastSlashedBatchBlock (a height) is represented by the nonce of the     *)
 (* batch created at that height (at most one batch per block).             *)
 (*                                                                         *)
 (* Every action is TOTAL (res "ok"/"rej").  Tick has no "rej" outcome:     *)
-(* block processing cannot fail in the design.  Where this tree's code     *)
-(* contradicts that (bridgeCallSlashing passes the wrong string to         *)
-(* SlashOracle) the model keeps the CORRECT behaviour.                     *)
+(* block processing cannot fail in the design.  Where the code contradicts *)
+(* that, the model keeps the CORRECT behaviour and the deviation shows.     *)
 (***************************************************************************)
 EXTENDS Integers, Sequences, FiniteSets, TLC, Json
 
 CONSTANTS Oracle,        \* set of strings
-          Stake,         \* [Oracle -> Nat] power of a bonded oracle
+          Stake,         \* [Oracle -> Nat] power an oracle bonds with
+          AddSizes,      \* power units an online oracle may add (MsgAddDelegate)
+          MaxAdds,
           W,             \* signed window (params.SignedWindow), >= 2
           Kinds,         \* subset of {"batch","call"}: which objects the environment creates
           MaxSets, MaxBatch, MaxCall,
           ObsSets,       \* oracle-set nonces for which an observed update may arrive
           Ticks,         \* set of k for Tick(k)
           Removable,     \* oracles governance may remove
-          PropKind,      \* subset of {"dep","pass","rej","veto","bad","exp"}
+          PropKind,      \* subset of GovKinds (below)
           MaxProps,
           DepositBlocks, VotingBlocks, ExpBlocks   \* periods in blocks (ExpBlocks < VotingBlocks)
 
-VARIABLES reg, online, approved, totalPower,
+VARIABLES reg, online, approved, power, totalPower, adds,
           sets, latest, slashedSet, lastObsSet,
           batches, slashedBatch,
           calls, slashedCall,
           props,
           op   \* operation just attempted: [name, o, k, n, res]
 
-svars == <<reg, online, approved, totalPower, sets, latest, slashedSet, lastObsSet,
+svars == <<reg, online, approved, power, totalPower, adds, sets, latest, slashedSet, lastObsSet,
            batches, slashedBatch, calls, slashedCall, props>>
 vars  == <<svars, op>>
 
 None == "none"
 
-Abs == [reg |-> reg, online |-> online, approved |-> approved, totalPower |-> totalPower,
+Abs == [reg |-> reg, online |-> online, approved |-> approved, power |-> power, totalPower |-> totalPower,
         sets |-> sets, latest |-> latest, slashedSet |-> slashedSet, lastObsSet |-> lastObsSet,
         batches |-> batches, slashedBatch |-> slashedBatch, calls |-> calls, slashedCall |-> slashedCall,
         props |-> props]
@@ -65,14 +70,15 @@ Op(name, o, k, n, res) == [name |-> name, o |-> o, k |-> k, n |-> n, res |-> res
 
 RECURSIVE SumSet(_, _)
 SumSet(S, f) == IF S = {} THEN 0 ELSE LET x == CHOOSE y \in S : TRUE IN f[x] + SumSet(S \ {x}, f)
-OnlineSum(on, rg) == SumSet({o \in Oracle : rg[o] /\ on[o]}, Stake)
+OnlineSum(on, rg, pw) == SumSet({o \in Oracle : rg[o] /\ on[o]}, pw)
 MaxOf(S) == CHOOSE x \in S : \A y \in S : y <= x
 Cap(a) == IF a >= W + 1 THEN W + 1 ELSE a
 AllF == [o \in Oracle |-> FALSE]
+All0 == [o \in Oracle |-> 0]
 Idx(s) == 1..Len(s)
 
 Init ==
-  /\ reg = AllF /\ online = AllF /\ approved = [o \in Oracle |-> TRUE] /\ totalPower = 0
+  /\ reg = AllF /\ online = AllF /\ approved = [o \in Oracle |-> TRUE] /\ power = All0 /\ totalPower = 0 /\ adds = 0
   /\ sets = <<>> /\ latest = 0 /\ slashedSet = 0 /\ lastObsSet = 0
   /\ batches = <<>> /\ slashedBatch = 0 /\ calls = <<>> /\ slashedCall = 0
   /\ props = <<>>
@@ -91,24 +97,37 @@ Bond(o) ==
       okk  == approved[o] /\ ~reg[o]
   IN IF ~okk THEN Rej(this) ELSE
      /\ reg' = [reg EXCEPT ![o] = TRUE] /\ online' = [online EXCEPT ![o] = TRUE]
-     /\ totalPower' = OnlineSum(online', reg')
+     /\ power' = [power EXCEPT ![o] = Stake[o]]
+     /\ totalPower' = OnlineSum(online', reg', power')
      /\ sets' = EligNow(sets, o) /\ batches' = EligNow(batches, o) /\ calls' = EligNow(calls, o)
      /\ op' = this
-     /\ UNCHANGED <<approved, latest, slashedSet, lastObsSet, slashedBatch, slashedCall, props>>
+     /\ UNCHANGED <<approved, adds, latest, slashedSet, lastObsSet, slashedBatch, slashedCall, props>>
 
 (* MsgUpdateChainOracles(approved \ {o}): refused when the online power removed is > 0 and     *)
 (* >= 30% of the online power; a removed registered oracle goes offline (not slashed); the      *)
 (* recorded total power is not refreshed.                                                       *)
 GovRemove(o) ==
   LET this == Op("GovRemove", o, None, 0, "ok")
-      tot  == OnlineSum(online, reg)
-      del  == IF reg[o] /\ online[o] THEN Stake[o] ELSE 0
+      tot  == OnlineSum(online, reg, power)
+      del  == IF reg[o] /\ online[o] THEN power[o] ELSE 0
       okk  == approved[o] /\ ~(del > 0 /\ del >= (30 * tot) \div 100)
   IN IF ~okk THEN Rej(this) ELSE
      /\ approved' = [approved EXCEPT ![o] = FALSE]
      /\ online' = [online EXCEPT ![o] = FALSE]
      /\ op' = this
-     /\ UNCHANGED <<reg, totalPower, sets, latest, slashedSet, lastObsSet, batches, slashedBatch, calls, slashedCall, props>>
+     /\ UNCHANGED <<reg, power, totalPower, adds, sets, latest, slashedSet, lastObsSet, batches, slashedBatch, calls, slashedCall, props>>
+
+(* MsgAddDelegate of `a` power units by an approved, registered oracle.  An oracle that was slashed must  *)
+(* first pay its penalty (80% of its stake: more than any amount used here), so only ONLINE oracles get *)
+(* through; the recorded total power is refreshed.                                                       *)
+AddStake(o, a) ==
+  LET this == Op("AddStake", o, None, a, "ok")
+      okk  == approved[o] /\ reg[o] /\ online[o]
+  IN IF ~okk THEN Rej(this) ELSE
+     /\ power' = [power EXCEPT ![o] = @ + a]
+     /\ totalPower' = OnlineSum(online, reg, power')
+     /\ adds' = adds + 1 /\ op' = this
+     /\ UNCHANGED <<reg, online, approved, sets, latest, slashedSet, lastObsSet, batches, slashedBatch, calls, slashedCall, props>>
 
 NewObj == [age |-> 0, conf |-> AllF, elig |-> reg]
 
@@ -118,13 +137,13 @@ CreateBatch ==
       okk  == \A n \in Idx(batches) : batches[n].age # 0
   IN IF ~okk THEN Rej(this) ELSE
      /\ batches' = Append(batches, NewObj) /\ op' = this
-     /\ UNCHANGED <<reg, online, approved, totalPower, sets, latest, slashedSet, lastObsSet, slashedBatch, calls, slashedCall, props>>
+     /\ UNCHANGED <<reg, online, approved, power, totalPower, adds, sets, latest, slashedSet, lastObsSet, slashedBatch, calls, slashedCall, props>>
 
 (* MsgBridgeCall *)
 CreateCall ==
   LET this == Op("CreateCall", None, None, 0, "ok")
   IN /\ calls' = Append(calls, NewObj) /\ op' = this
-     /\ UNCHANGED <<reg, online, approved, totalPower, sets, latest, slashedSet, lastObsSet, batches, slashedBatch, slashedCall, props>>
+     /\ UNCHANGED <<reg, online, approved, power, totalPower, adds, sets, latest, slashedSet, lastObsSet, batches, slashedBatch, slashedCall, props>>
 
 (* MsgOracleSetConfirm / MsgConfirmBatch / MsgBridgeCallConfirm signed by o's external key:     *)
 (* any REGISTERED oracle (online or not), object in store, not yet confirmed by o.              *)
@@ -137,7 +156,7 @@ Confirm(o, k, n) ==
      /\ batches' = IF k = "batch" THEN [batches EXCEPT ![n].conf[o] = TRUE] ELSE batches
      /\ calls'   = IF k = "call"  THEN [calls   EXCEPT ![n].conf[o] = TRUE] ELSE calls
      /\ op' = this
-     /\ UNCHANGED <<reg, online, approved, totalPower, latest, slashedSet, lastObsSet, slashedBatch, slashedCall, props>>
+     /\ UNCHANGED <<reg, online, approved, power, totalPower, adds, latest, slashedSet, lastObsSet, slashedBatch, slashedCall, props>>
 
 (* an observed MsgOracleSetUpdatedClaim for oracle set n (which must still be in the store) *)
 ObserveSet(n) ==
@@ -145,34 +164,40 @@ ObserveSet(n) ==
       okk  == n \in Idx(sets) /\ sets[n].ex
   IN IF ~okk THEN Rej(this) ELSE
      /\ lastObsSet' = n /\ op' = this
-     /\ UNCHANGED <<reg, online, approved, totalPower, sets, latest, slashedSet, batches, slashedBatch, calls, slashedCall, props>>
+     /\ UNCHANGED <<reg, online, approved, power, totalPower, adds, sets, latest, slashedSet, batches, slashedBatch, calls, slashedCall, props>>
 
-(* MsgSubmitProposal (+ votes of the validators) of one of the kinds:                           *)
-(*  dep  initial deposit below the minimum: stays in deposit period and is dropped when it ends  *)
-(*  pass all validators vote yes, message executes                                               *)
-(*  rej  all validators vote no          veto all vote no-with-veto (deposit burned)             *)
-(*  bad  all vote yes, the message fails on execution (proposal FAILED, nothing written)         *)
-(*  exp  expedited, half yes / half no: fails as expedited, converted to a regular proposal,     *)
-(*       tallied again (votes are gone by then) and rejected                                     *)
+(* MsgSubmitProposal followed by the votes of the two validators v0 v1 (v0 also carries the oracles'     *)
+(* delegations, so v0 >= v1; quorum is 60% of the bonded stake, threshold 50%, veto 1/3).  Kinds:          *)
+(*  dep  initial deposit below the minimum: stays in deposit period and is dropped when it ends            *)
+(*  xy   x, y in {Y yes, N no, A abstain, V no-with-veto, - no vote}: vote of v0, vote of v1                *)
+(*         YY passes; NN, NY rejected; VV vetoed (deposit burned); AA quorum reached but EVERY vote abstains *)
+(*         (rejected); -A only the smaller validator abstains (below quorum); AY abstain + yes (passes);    *)
+(*         -- nobody votes                                                                                  *)
+(*  W    weighted votes: v0 {yes .5, no .5}, v1 {yes .5, abstain .5} (passes)                               *)
+(*  bad  YY, but the message fails on execution (proposal FAILED, nothing written)                          *)
+(*  exp  expedited with NY: fails as expedited, converted to a regular proposal, tallied again (votes are   *)
+(*       gone by then) and rejected                                                                         *)
+GovKinds  == {"dep", "YY", "NN", "NY", "VV", "AA", "-A", "AY", "--", "W", "bad", "exp"}
+PassKinds == {"YY", "AY", "W"}
 Submit(kind) ==
   LET this == Op("Submit", None, kind, 0, "ok")
       p    == CASE kind = "dep" -> [kind |-> kind, status |-> "deposit", left |-> DepositBlocks]
                 [] kind = "exp" -> [kind |-> kind, status |-> "votingx", left |-> ExpBlocks]
                 [] OTHER        -> [kind |-> kind, status |-> "voting",  left |-> VotingBlocks]
   IN /\ props' = Append(props, p) /\ op' = this
-     /\ UNCHANGED <<reg, online, approved, totalPower, sets, latest, slashedSet, lastObsSet, batches, slashedBatch, calls, slashedCall>>
+     /\ UNCHANGED <<reg, online, approved, power, totalPower, adds, sets, latest, slashedSet, lastObsSet, batches, slashedBatch, calls, slashedCall>>
 
 ---------------------------------------------------------------------------
 (* ONE BLOCK ENDS.  s is the record of the variables a block end can change. *)
 Cur == [online |-> online, totalPower |-> totalPower, sets |-> sets, latest |-> latest, slashedSet |-> slashedSet,
         batches |-> batches, slashedBatch |-> slashedBatch, calls |-> calls, slashedCall |-> slashedCall, props |-> props]
 
-\* normalised powers as GetCurrentOracleSet computes them (scaled to 10^6 instead of 2^32-1:
-\* TLC integers are 32 bit), and PowerDiff >= OracleSetUpdatePowerChangePercent (10%)
-Norm(S) == LET tot == SumSet(S, Stake) IN [o \in Oracle |-> IF o \in S /\ tot > 0 THEN (Stake[o] * 1000000) \div tot ELSE 0]
+\* normalised powers of the member set S with powers pw, as GetCurrentOracleSet computes them (at 20 bits, see
+\* the header), and PowerDiff >= OracleSetUpdatePowerChangePercent (10%).  The 20-bit truncation moves the sum by
+\* less than |Oracle| * 2^-20; the stake changes used are chosen at least 10^-3 away from the threshold.
+NormP(S, pw) == LET tot == SumSet(S, pw) IN [o \in Oracle |-> IF o \in S /\ pw[o] > 0 /\ tot > 0 THEN (pw[o] * 1048576 - 1) \div tot ELSE 0]
 AbsV(x) == IF x < 0 THEN 0 - x ELSE x
-PowerDiffGE(S, T) == LET a == Norm(S) b == Norm(T) d == [o \in Oracle |-> AbsV(a[o] - b[o])]
-                     IN SumSet(Oracle, d) * 10 >= 1000000
+DiffGE(a, b) == LET d == [o \in Oracle |-> AbsV(a[o] - b[o])] IN SumSet(Oracle, d) * 10 >= 1048576
 
 DueSets(s)    == {n \in Idx(s.sets)    : n > s.slashedSet   /\ s.sets[n].ex /\ s.sets[n].age >= W + 1}
 DueBatches(s) == {n \in Idx(s.batches) : n > s.slashedBatch /\ s.batches[n].age >= W + 1}
@@ -188,7 +213,7 @@ GovStep(p) ==
   ELSE IF p.left > 0 THEN [p EXCEPT !.left = @ - 1]
   ELSE CASE p.status = "deposit" -> [kind |-> "gone", status |-> "gone", left |-> 0]     \* proposal deleted
          [] p.status = "votingx" -> [p EXCEPT !.status = "voting", !.left = VotingBlocks - ExpBlocks - 1]
-         [] p.kind = "pass"      -> [p EXCEPT !.status = "passed"]
+         [] p.kind \in PassKinds -> [p EXCEPT !.status = "passed"]
          [] p.kind = "bad"       -> [p EXCEPT !.status = "failed"]
          [] OTHER                -> [p EXCEPT !.status = "rejected"]
 
@@ -196,25 +221,26 @@ EB(s) ==
   LET \* --- slashing (snapshot of the online oracles taken once)
       slashed == {o \in Oracle : reg[o] /\ s.online[o] /\ Missed(s, o)}
       on1     == [o \in Oracle |-> s.online[o] /\ o \notin slashed]
-      tp1     == IF slashed # {} THEN OnlineSum(on1, reg) ELSE s.totalPower
+      tp1     == IF slashed # {} THEN OnlineSum(on1, reg, power) ELSE s.totalPower
       cs1     == MaxOf({s.slashedSet} \cup DueSets(s))
       cb1     == MaxOf({s.slashedBatch} \cup DueBatches(s))
       cc1     == MaxOf({s.slashedCall} \cup DueCalls(s))
       \* --- oracle set request
-      members == {o \in Oracle : reg[o] /\ on1[o] /\ Stake[o] > 0}
+      members == {o \in Oracle : reg[o] /\ on1[o] /\ power[o] > 0}
+      cur     == NormP(members, power)
       hasLat  == s.latest \in Idx(s.sets) /\ s.sets[s.latest].ex
       need    == \/ ~hasLat
                  \/ slashed # {}
-                 \/ PowerDiffGE(members, {o \in Oracle : s.sets[s.latest].mem[o]})
+                 \/ DiffGE(cur, s.sets[s.latest].np)
       create  == need /\ members # {}
-      newset  == [ex |-> TRUE, age |-> 0, conf |-> AllF, elig |-> reg, mem |-> [o \in Oracle |-> o \in members]]
+      newset  == [ex |-> TRUE, age |-> 0, conf |-> AllF, elig |-> reg, np |-> cur]
       sets1   == IF create THEN Append(s.sets, newset) ELSE s.sets
       lat1    == IF create THEN s.latest + 1 ELSE s.latest
-      tp2     == IF create THEN OnlineSum(on1, reg) ELSE tp1
+      tp2     == IF create THEN OnlineSum(on1, reg, power) ELSE tp1
       \* --- pruning (needs an observed oracle set with a higher nonce), then the next block begins
       pruned(n) == sets1[n].ex /\ sets1[n].age >= W + 1 /\ lastObsSet > n
       sets2   == [n \in Idx(sets1) |->
-                    IF pruned(n) THEN [ex |-> FALSE, age |-> W + 1, conf |-> AllF, elig |-> AllF, mem |-> AllF]
+                    IF pruned(n) THEN [ex |-> FALSE, age |-> W + 1, conf |-> AllF, elig |-> AllF, np |-> All0]
                     ELSE [sets1[n] EXCEPT !.age = Cap(@ + 1)]]
       older(q) == [n \in Idx(q) |-> [q[n] EXCEPT !.age = Cap(@ + 1)]]
   IN [online |-> on1, totalPower |-> tp2, sets |-> sets2, latest |-> lat1, slashedSet |-> cs1,
@@ -232,13 +258,14 @@ Tick(k) ==
      /\ slashedSet' = t.slashedSet /\ batches' = t.batches /\ slashedBatch' = t.slashedBatch
      /\ calls' = t.calls /\ slashedCall' = t.slashedCall /\ props' = t.props
      /\ op' = this
-     /\ UNCHANGED <<reg, approved, lastObsSet>>
+     /\ UNCHANGED <<reg, approved, power, adds, lastObsSet>>
 
 Probe == op' = Op("Probe", None, None, 0, "ok") /\ UNCHANGED svars
 
 Next ==
   \/ \E o \in Oracle : Bond(o)
   \/ \E o \in Removable : GovRemove(o)
+  \/ \E o \in Oracle, a \in AddSizes : AddStake(o, a)
   \/ ("batch" \in Kinds /\ CreateBatch)
   \/ ("call" \in Kinds /\ CreateCall)
   \/ \E o \in Oracle, n \in 1..MaxSets : Confirm(o, "set", n)
@@ -288,6 +315,16 @@ A_C07_OnlineChangedOnlyBy ==
   /\ reg' # reg => op'.name = "Bond"
 C07_OnlineChangedOnlyBy == [][A_C07_OnlineChangedOnlyBy]_vars
 
+\* an oracle's power changes only by its own Bond / AddStake (by exactly that amount); AddStake is only accepted
+\* from an online oracle and refreshes the recorded total power
+A_C07_PowerChangedOnlyBy ==
+  /\ power' # power => /\ op'.name \in {"Bond", "AddStake"} /\ op'.res = "ok"
+                        /\ \A o \in Oracle : o # op'.o => power'[o] = power[o]
+  /\ (op'.name = "AddStake" /\ op'.res = "ok") =>
+        /\ online[op'.o] /\ power'[op'.o] = power[op'.o] + op'.n /\ online' = online
+        /\ totalPower' = OnlineSum(online', reg', power')
+C07_PowerChangedOnlyBy == [][A_C07_PowerChangedOnlyBy]_vars
+
 \* cursors are monotone, move only at a block end, and after one block stand exactly behind the
 \* last object that was past the window (nothing skipped, nothing slashed early)
 A_C07_Cursors ==
@@ -300,24 +337,24 @@ C07_Cursors == [][A_C07_Cursors]_vars
 
 \* whenever a block end put somebody offline the recorded total power is the online power afterwards
 A_C07_PowerRefreshed ==
-  (TickOk /\ \E o \in Oracle : online[o] /\ ~online'[o]) => totalPower' = OnlineSum(online', reg')
+  (TickOk /\ \E o \in Oracle : online[o] /\ ~online'[o]) => totalPower' = OnlineSum(online', reg', power')
 C07_PowerRefreshed == [][A_C07_PowerRefreshed]_vars
 
 \* oracle-set request rule: a new request (height = the ending block, members = the online oracles,
 \* nobody confirmed yet, total power refreshed) iff there are members and (no request in store yet,
 \* or somebody was slashed in this block, or the power moved by >= 10%)
-MembersAfter == {o \in Oracle : reg[o] /\ online'[o] /\ Stake[o] > 0}
+MembersAfter == {o \in Oracle : reg[o] /\ online'[o] /\ power[o] > 0}
 A_C07_SetRequest ==
   OneTickOk =>
     LET hasLat == latest \in Idx(sets) /\ sets[latest].ex
         need   == \/ ~hasLat
                   \/ \E o \in Oracle : online[o] /\ ~online'[o]
-                  \/ PowerDiffGE(MembersAfter, {o \in Oracle : sets[latest].mem[o]})
+                  \/ DiffGE(NormP(MembersAfter, power), sets[latest].np)
     IN IF need /\ MembersAfter # {}
        THEN /\ Len(sets') = Len(sets) + 1 /\ latest' = Len(sets')
             /\ LET x == sets'[Len(sets')]
-               IN x.ex /\ x.age = 1 /\ x.conf = AllF /\ x.elig = reg /\ x.mem = [o \in Oracle |-> o \in MembersAfter]
-            /\ totalPower' = OnlineSum(online', reg')
+               IN x.ex /\ x.age = 1 /\ x.conf = AllF /\ x.elig = reg /\ x.np = NormP(MembersAfter, power)
+            /\ totalPower' = OnlineSum(online', reg', power')
        ELSE Len(sets') = Len(sets) /\ latest' = latest
 C07_SetRequest == [][A_C07_SetRequest]_vars
 \* requests appear only at block ends
@@ -370,6 +407,7 @@ View == svars
 \* bounds and restrictions of the ENVIRONMENT are action constraints: the transition is generated
 \* (and printed in the generation run) but its successor is not expanded
 Bounded ==
+  /\ adds' <= MaxAdds
   /\ Len(sets') <= MaxSets /\ Len(batches') <= MaxBatch /\ Len(calls') <= MaxCall /\ Len(props') <= MaxProps
   \* confirmations by offline oracles (never looked at again: nobody comes back online in this model), of
   \* objects the cursor has passed, or observing an older update, change nothing a block end reads
